@@ -76,6 +76,9 @@ def generate(tape, tier="quick"):
     if fault == "unconnected":
         c = comps[tape.choice(sims)]
         c["inputs"].append({"name": f"i{len(c['inputs'])}", "initial_pull": False})
+    if fault in ("cycle", "unconnected"):
+        for c in comps:
+            c.pop("impl", None)      # slots were added: the stub takes over again
     sc["fault"] = fault
     sc["conv"] = conv
     n, m = len(comps), len(links)
